@@ -264,6 +264,13 @@ fn run_chain(text: &str) -> &'static str {
     }
 }
 
+/// (what, bytes): a component importing a core module type one of whose imports is an *exact*
+/// function type (custom-descriptors proposal; byte 0x20 before the type index) - fixed by 90411d9.
+const SHAPED_HEX: [(&str, &str); 1] = [(
+    "module-type-with-exact-function-import",
+    "0061736d0d00010003320150070160017f0000016101660000000161017401700001000161016d020101020001610167037e010160000003016520010a070100016d001100",
+)];
+
 const SHAPED_WAT: [&str; 14] = [
     "(component)",
     "(module)",
@@ -456,6 +463,18 @@ pub fn run(ctx: &mut Ctx) {
                 Err(p) => ctx.violation(lcase, &panic_sig("chain", &p), format!("parse/resolve/encode of a {name} of {n} definitions panicked: {p}"), input.clone()),
             }
         }
+    }
+    // B: binaries found by mutation that the text format cannot express with this toolchain
+    for (i, (what, hx)) in SHAPED_HEX.iter().enumerate() {
+        let case = crate::witness::WITNESS_BASE + 900 + i as u64;
+        if !ctx.mine(case) {
+            continue;
+        }
+        let input = json!({"bytes_hex": hx, "what": what});
+        ctx.begin_with_input(case, &input);
+        let bytes: Vec<u8> = (0..hx.len() / 2).map(|i| u8::from_str_radix(&hx[2 * i..2 * i + 2], 16).unwrap_or(0)).collect();
+        ctx.count("shaped-binary");
+        check_package(ctx, case, &bytes, &input);
     }
     // S: shaped WAT components / modules
     for (i, w) in SHAPED_WAT.iter().enumerate() {
